@@ -101,6 +101,25 @@ def twice(f, *a, **k):
     return r
 
 
+def strict(run):
+    """run with CPython's int <-> str digit limit at its minimum (640 digits): the library converts digit by digit and never
+    needs int(str) / str(int) of a long number, so its answers must not depend on that interpreter setting (with the default
+    limit of 4300 digits a dependence would only show beyond 14 285 bits / 7 143 nucleotides)"""
+    import sys
+
+    def inner():
+        old = sys.get_int_max_str_digits() if hasattr(sys, "get_int_max_str_digits") else None
+        if old is not None:
+            sys.set_int_max_str_digits(640)
+        try:
+            return run()
+        finally:
+            if old is not None:
+                sys.set_int_max_str_digits(old)
+    return inner
+
+
+
 def build(stream, p):
     if stream == "bits":
         bits = p["bits"]
@@ -124,7 +143,7 @@ def build(stream, p):
             if list(back_s) != list(bits) or list(back_i) != list(bits):
                 return "round trip returned %r / %r" % (back_s, back_i)
             return None
-        impl = lambda: guard(run, lambda r: [digits(r[0]), [r[1]], [int(x) for x in r[2]], [int(x) for x in r[3]]])
+        impl = lambda: guard(strict(run), lambda r: [digits(r[0]), [r[1]], [int(x) for x in r[2]], [int(x) for x in r[3]]])
         # model side: one composite call is not available; compare the two forward calls via a combined case
         return MultiCase(stream, p, calls + ["RT"], impl, oracle, bits)
     if stream == "dna":
@@ -147,7 +166,7 @@ def build(stream, p):
             if back_s != s or back_i != s:
                 return "round trip returned %r / %r" % (back_s, back_i)
             return None
-        impl = lambda: guard(run, lambda r: [digits(r[0]), [r[1]], s2c(r[2]), s2c(r[3])])
+        impl = lambda: guard(strict(run), lambda r: [digits(r[0]), [r[1]], s2c(r[2]), s2c(r[3])])
         return MultiCaseDna(stream, p, impl, oracle, s)
     n, L = p.get("n"), p.get("L")
     if stream in ("render_bits", "toowide_bits"):
